@@ -477,6 +477,11 @@ def rule_div_wrap(run):
     c09.rule_div_wrap(run)   # truncdiv wraps modulo the dividend width, also when folded
 
 
+def rule_delegation(run):
+    from . import c09
+    c09.rule_delegation(run)   # reflected operators of qualified objects delegate to the reflected operator of the value
+
+
 def rule_trial(run):
     from . import c05
     c05.rule_trial(run)      # if-expression / select_with branches are tried against the target type with the SOURCE value
@@ -487,7 +492,7 @@ def rule_writeback(run):
     _r.run_writeback_rule(run, "F-WRITEBACK")   # operands rewritten by a traversal (alias redirection) are stored back, every field
 
 
-RULES = [rule_rows, rule_hops, rule_tokens, rule_exhaustive, rule_casts, rule_flags, rule_siblings, rule_widths, rule_intarith, rule_ext, rule_castmatrix, rule_tracer_tables, rule_resize, rule_views, rule_alias, rule_backend_sites, rule_cleanup, rule_ctor_domain, rule_div_wrap, rule_trial, rule_writeback]
+RULES = [rule_rows, rule_hops, rule_tokens, rule_exhaustive, rule_casts, rule_flags, rule_siblings, rule_widths, rule_intarith, rule_ext, rule_castmatrix, rule_tracer_tables, rule_resize, rule_views, rule_alias, rule_backend_sites, rule_cleanup, rule_ctor_domain, rule_div_wrap, rule_trial, rule_writeback, rule_delegation]
 
 LEVEL = "other"
 EXPLANATION = (
